@@ -258,8 +258,7 @@ func FaultReach(d simio.Delivery, n int, limit uint32) (reach, corner bool) {
 }
 
 func (c *c05) Check(rr *RunResult, st *Stats) []Failure {
-	fs := KernelFailures(rr)
-	fs = append(fs, CallerMemoryFailures(rr)...)
+	fs := KernelFailures(rr, false)
 	if rr.Out.Class != "" {
 		return fs
 	}
